@@ -34,7 +34,7 @@ COMP = ("comp", ["debug", "release"])
 
 PROPS = {
     "C01": dict(streams=[ALGO, HIST, COMP], oracles=[dict(name="wf", profiles=["debug"])],
-                assumptions=["generic (centroid/median) and nnchain with arithmetic methods on floats: well-formedness is not a theorem (nnchain needs reducibility, proved for single/complete over a strict weak order and for average/weighted/ward over Q)"]),
+                assumptions=["generic with arithmetic methods: well-formedness theorem has the no-overflow closure of the update formula as a hypothesis; nnchain needs reducibility (proved for single/complete over a strict weak order and for average/weighted/ward over Q)"]),
     "C02": dict(streams=[ALGO, HIST], translators=["formulas"], oracles=[dict(name="criterion", profiles=["debug"])],
                 assumptions=["whole-run theorems are about primitive_with and nnchain_with in exact rational arithmetic (single/complete: any strict weak order); the float tolerance and generic are measured by correspondence and oracle"]),
     "C03": dict(streams=[ALGO, HIST, COMP], oracles=[dict(name="greedy", profiles=["debug"])],
@@ -50,7 +50,7 @@ PROPS = {
     "C11": dict(streams=[ALGO], oracles=[dict(name="permute", profiles=["debug"])],
                 assumptions=["only the symmetry of the update formulas is a theorem"]),
     "C12": dict(streams=[ALGO2, HIST], oracles=[dict(name="safety", profiles=["debug", "release"])],
-                assumptions=["totality is a theorem for mst, primitive and (under strict weak order + reducibility) nnchain; for generic, nnchain on floats with arithmetic methods, and finiteness of arithmetic methods it is measured, not proved"]),
+                assumptions=["totality is a theorem for mst, primitive, nnchain (strict weak order + reducibility) and generic (strict weak order + reflexive == + no-overflow closure); for arithmetic methods on floats those hypotheses and finiteness of outputs are measured, not proved"]),
     "C14": dict(streams=[("cost", ["debug"])], translators=["tables"], oracles=[dict(name="cost", profiles=["debug"])],
                 assumptions=["nnchain bound theorem needs a strict weak order and reducibility (single/complete generic; average/weighted/ward over Q); on floats with arithmetic methods the bound is measured (count equality with the model + adversarial search)"]),
     "C07": dict(
